@@ -470,6 +470,11 @@ class Emitter:
             en = self.v.get("enums", {}).get(segs[-2])
             if en is not None and segs[-1] in en["variants"]:
                 return k(en["variants"][segs[-1]], ("enum", segs[-2]), env)
+            if segs == ["Self", segs[-1]] and self.self_struct is not None:
+                # `Self::Variant` inside an (inlined) method of a vocabulary enum
+                en = self.v.get("enums", {}).get(self.self_struct)
+                if en is not None and segs[-1] in en["variants"]:
+                    return k(en["variants"][segs[-1]], ("enum", self.self_struct), env)
             c = self.v.get("consts", {}).get("::".join(segs[-2:]))
             if c is not None:
                 return k(c[0], c[1], env)
